@@ -416,6 +416,114 @@ pub fn model_case(ch: &mut Chooser, t: &mut Tally) {
     }
 }
 
+// ------------------------------------------------------------------------------------------------
+// typed streams: Stream<()> with a filter chain -> stream dictionary + data -> Stream<()>
+
+#[derive(Clone, Copy, Debug)]
+enum F {
+    Hex,
+    A85,
+    Rl,
+    Flate,
+    FlatePng(i32),
+    Lzw(bool),
+}
+const CHAINS: &[(&str, &[F])] = &[
+    ("none", &[]),
+    ("AHx", &[F::Hex]),
+    ("A85", &[F::A85]),
+    ("RL", &[F::Rl]),
+    ("Fl", &[F::Flate]),
+    ("Fl+png4", &[F::FlatePng(4)]),
+    ("LZW:early0", &[F::Lzw(false)]),
+    ("LZW:early1", &[F::Lzw(true)]),
+    ("A85,Fl", &[F::A85, F::Flate]),
+    ("A85,Fl+png4", &[F::A85, F::FlatePng(4)]),
+    ("Fl+png1,A85", &[F::FlatePng(1), F::A85]),
+    ("AHx,LZW:early0", &[F::Hex, F::Lzw(false)]),
+    ("Fl+png1,LZW:early0", &[F::FlatePng(1), F::Lzw(false)]),
+    ("AHx,A85,RL", &[F::Hex, F::A85, F::Rl]),
+];
+fn chain_names() -> &'static [&'static str] {
+    static N: OnceLock<Vec<&'static str>> = OnceLock::new();
+    N.get_or_init(|| CHAINS.iter().map(|c| c.0).collect())
+}
+fn lib_filter(f: F) -> pdf::enc::StreamFilter {
+    use pdf::enc::{LZWFlateParams, StreamFilter};
+    match f {
+        F::Hex => StreamFilter::ASCIIHexDecode,
+        F::A85 => StreamFilter::ASCII85Decode,
+        F::Rl => StreamFilter::RunLengthDecode,
+        F::Flate => StreamFilter::FlateDecode(LZWFlateParams::default()),
+        F::FlatePng(cols) => StreamFilter::FlateDecode(LZWFlateParams { predictor: 12, columns: cols, ..Default::default() }),
+        F::Lzw(early) => StreamFilter::LZWDecode(LZWFlateParams { early_change: early as i32, ..Default::default() }),
+    }
+}
+fn ref_encode(f: F, data: &[u8]) -> Vec<u8> {
+    use crate::pdfgen::filters as pf;
+    match f {
+        F::Hex => pf::hex_encode(data, pf::HexStyle::Upper, true),
+        F::A85 => pf::a85_encode(data, pf::A85Style::Plain),
+        F::Rl => pf::rl_encode(data, pf::RlStyle::Greedy, true),
+        F::Flate => pf::flate_encode(data, pf::FlateStyle::ZlibDefault),
+        F::FlatePng(cols) => pf::flate_encode(&pf::png_predict(data, 1, 8, cols as usize, |_| 2), pf::FlateStyle::ZlibDefault),
+        F::Lzw(early) => pf::lzw_encode(data, early, 0),
+    }
+}
+const STREAM_DATA: &[&str] = &["8 bytes", "empty", "64 bytes"];
+pub fn stream_case(ch: &mut Chooser, t: &mut Tally) {
+    use pdf::object::Stream;
+    let ci = ch.pick_free_named("chain", chain_names());
+    let di = ch.pick_free_named("data", STREAM_DATA);
+    let chain = CHAINS[ci].1;
+    let plain: Vec<u8> = match di {
+        0 => vec![0, 1, 2, 250, 251, 252, 10, 13],
+        1 => vec![],
+        _ => (0..64u32).map(|i| (i * 37 % 251) as u8).collect(),
+    };
+    // the first filter of the list is the first to be applied when decoding
+    let mut encoded = plain.clone();
+    for f in chain.iter().rev() {
+        encoded = ref_encode(*f, &encoded);
+    }
+    t.evaluations += 1;
+    t.distinct.insert(fnv_mix(ci as u64, di as u64 + 100));
+    let filters: Vec<pdf::enc::StreamFilter> = chain.iter().map(|f| lib_filter(*f)).collect();
+    let want_filters = format!("{:?}", filters);
+    let res = catch(|| -> std::result::Result<(), (String, String)> {
+        let s1 = Stream::from_compressed((), encoded.clone(), filters.clone());
+        let p1 = s1.to_pdf_stream(&mut NoUpdate).map_err(|e| ("write-fails".to_string(), format!("{}", err_root(&e))))?;
+        let info1 = show_prim(&Primitive::Dictionary(p1.info.clone()));
+        let s2 = Stream::<()>::from_stream(p1, &NoResolve).map_err(|e| ("written-form-unreadable".to_string(), format!("{} : {}", info1, err_root(&e))))?;
+        let got_filters = format!("{:?}", s2.info.filters);
+        if got_filters != want_filters {
+            return Err(("filters-differ".into(), format!("filters {} written as {} read back as {}", want_filters, info1, got_filters)));
+        }
+        match s2.data(&NoResolve) {
+            Ok(d) if d[..] == plain[..] => {}
+            Ok(d) => return Err(("data-differs".into(), format!("written as {}: data {} expected {}", info1, show_bytes(&d[..d.len().min(40)]), show_bytes(&plain[..plain.len().min(40)])))),
+            Err(e) => return Err(("data-unreadable".into(), format!("written as {}: {}", info1, err_root(&e)))),
+        }
+        let p2 = s2.to_pdf_stream(&mut NoUpdate).map_err(|e| ("write-fails".to_string(), format!("second write: {}", err_root(&e))))?;
+        let info2 = show_prim(&Primitive::Dictionary(p2.info.clone()));
+        if info1 != info2 {
+            return Err(("not-idempotent".into(), format!("{} then {}", info1, info2)));
+        }
+        Ok(())
+    });
+    let verdict = match res {
+        Err((loc, msg)) => Err((panic_kind(&loc), msg)),
+        Ok(v) => v,
+    };
+    match verdict {
+        Ok(()) => t.outcome("ok"),
+        Err((kind, detail)) => {
+            t.outcome(&kind);
+            t.fail("c15.stream", &kind, vec![format!("chain={}", CHAINS[ci].0)], format!("Stream<()> filters [{}] data {}: {}", CHAINS[ci].0, STREAM_DATA[di], detail), ch.replay_value("c15.stream"));
+        }
+    }
+}
+
 /// guard: the keys of the table must be exactly the `#[pdf(key=..)]` attributes of the struct in the sources
 pub fn table_guard() -> Vec<String> {
     let mut problems = vec![];
@@ -468,13 +576,14 @@ pub fn run(tier: Tier, _seed: u64, tally: &mut Tally) -> CheckMeta {
     }
     let bound = if tier.thorough() { 8 } else { 5 };
     explore("c15.model", Limits::new(bound).wall(if tier.thorough() { 3000 } else { 120 }), tally, model_case);
+    explore("c15.stream", Limits::new(0), tally, stream_case);
     tally.validated = tally.evaluations;
     tally.sample(json!({"model": "Annot", "input": "<< /Subtype /Link /F 4 /ZzUnknown << /Deep [1 (x)] >> >>", "oracle": "p0 -> T -> p1 -> T -> p2: p1 == p2 and every entry of p0 in p1"}));
     tally.sample(json!({"model": "Action", "input": "<< /S /GoTo /D (named) >>"}));
     CheckMeta {
         prop: "C15",
         level: "model_checking",
-        rule: format!("{} models with reader and writer (derived structs and enums, hand-written pairs Date, Rectangle, Matrix, Dest, MaybeNamedDest, Action, Encoding, NumberTree, Font, containers): per dictionary model every field has a list of alternatives (absent, default, other values; enum fields over all variants; one-or-many arrays; nested models), explored with <= {} simultaneous field deviations plus 0-2 unknown extra keys and integer-vs-real spelling; non-dictionary models over all listed values. Oracle: p0 -> T -> p1 -> T -> p2 on a real Storage (indirect fields followed through it): p1 == p2, and for models that keep unrecognised entries every entry of p0 is in p1 up to omitted defaults and int == real. A guard compares the table with the #[pdf(key=..)] attributes of the sources.", models().len(), bound),
+        rule: format!("{} models with reader and writer (derived structs and enums, hand-written pairs Date, Rectangle, Matrix, Dest, MaybeNamedDest, Action, Encoding, NumberTree, Font, containers): per dictionary model every field has a list of alternatives (absent, default, other values; enum fields over all variants; one-or-many arrays; nested models), explored with <= {} simultaneous field deviations plus 0-2 unknown extra keys and integer-vs-real spelling; non-dictionary models over all listed values. Oracle: p0 -> T -> p1 -> T -> p2 on a real Storage (indirect fields followed through it): p1 == p2, and for models that keep unrecognised entries every entry of p0 is in p1 up to omitted defaults and int == real. A guard compares the table with the #[pdf(key=..)] attributes of the sources. Typed streams: Stream<()> built from independently encoded data over {} filter chains x 3 data values, written with to_pdf_stream and read with from_stream: same filters, data() equals the plain data, second write identical.", models().len(), bound, CHAINS.len()),
         assumptions: vec!["models whose writer is todo!()/unimplemented (NameTree, Function, most ColorSpace variants) cannot be 'both read and written' and are not enumerated (ColorSpace entries therefore stay absent); fields that need a resolvable target (Annot /P, font files) stay absent".into()],
         exhaustive: true,
         bounds: json!({"field_deviations": bound}),
@@ -483,5 +592,9 @@ pub fn run(tier: Tier, _seed: u64, tally: &mut Tally) -> CheckMeta {
 
 pub fn replay(case: &Value, tally: &mut Tally) {
     let picks: Vec<u32> = case["picks"].as_array().map(|a| a.iter().map(|x| x.as_u64().unwrap() as u32).collect()).unwrap_or_default();
-    run_one(&picks, tally, model_case);
+    if case["engine"].as_str() == Some("c15.stream") {
+        run_one(&picks, tally, stream_case);
+    } else {
+        run_one(&picks, tally, model_case);
+    }
 }
